@@ -8,6 +8,9 @@
 //	(c) leveldb.DB / Snapshot iterators on small DB states with tombstones, overwritten versions kept
 //	    alive by snapshots, several levels, with and without util.Range,
 //	(d) Transaction iterators on such states,
+//	(e) merged / indexed iterators, strict and non-strict, over children that fail at a drawn movement
+//	    with a corruption or an I/O error (failIter); the answers then carry Error() and the number of
+//	    error-callback calls (GoLevel/Model/IterErr.lean),
 //
 // drives a random walk of First/Last/Seek/Next/Prev (biased towards reversals right after a Seek and at
 // both ends) over each, and hands the calls to the sink as `it …` lines for the Lean driver together with
@@ -30,6 +33,7 @@ import (
 
 	"github.com/syndtr/goleveldb/leveldb"
 	"github.com/syndtr/goleveldb/leveldb/comparer"
+	lerrors "github.com/syndtr/goleveldb/leveldb/errors"
 	"github.com/syndtr/goleveldb/leveldb/iterator"
 	"github.com/syndtr/goleveldb/leveldb/memdb"
 	"github.com/syndtr/goleveldb/leveldb/opt"
@@ -762,6 +766,322 @@ func (g *generator) stateIndexed(r *rng.R, id string, ci *caseInfo) {
 	g.nState["indexed"]++
 }
 
+// ---- children that fail (property C02/C08, GoLevel/Model/IterErr.lean) ----------------------------------
+
+var errIO = fmt.Errorf("wp/c02: injected I/O error")
+
+func errCorrupted() error {
+	return &lerrors.ErrCorrupted{Fd: storage.FileDesc{Type: storage.TypeTable, Num: 7}, Err: fmt.Errorf("wp/c02: injected corruption")}
+}
+
+// failPlan: movement number k (from 0, counted over First/Last/Seek/Next/Prev) fails; k < 0 never.
+type failPlan struct {
+	k       int
+	corrupt bool
+}
+
+func (p failPlan) String() string {
+	switch {
+	case p.k < 0:
+		return "-"
+	case p.corrupt:
+		return fmt.Sprintf("c%d", p.k)
+	}
+	return fmt.Sprintf("i%d", p.k)
+}
+
+func drawPlan(r *rng.R, maxK int) failPlan {
+	if r.Chance(1, 2) {
+		return failPlan{k: -1}
+	}
+	k := 0
+	if !r.Chance(1, 3) { // one third: the child cannot be read at all (a block that fails its checksum)
+		k = r.Intn(maxK)
+	}
+	return failPlan{k: k, corrupt: r.Chance(3, 4)}
+}
+
+// failIter is a child iterator that fails at movement plan.k and is dead from then on, as blockIter after
+// sErr, an emptyIterator carrying an error and a strict indexedIterator are: every movement returns false,
+// Valid() is false, Key()/Value() are nil, Error() keeps returning the error.
+type failIter struct {
+	iterator.Iterator
+	plan  failPlan
+	moves int
+	err   error
+}
+
+func (f *failIter) mv(do func() bool) bool {
+	if f.err != nil {
+		return false
+	}
+	if f.moves == f.plan.k {
+		f.moves++
+		if f.plan.corrupt {
+			f.err = errCorrupted()
+		} else {
+			f.err = errIO
+		}
+		return false
+	}
+	f.moves++
+	return do()
+}
+func (f *failIter) First() bool        { return f.mv(f.Iterator.First) }
+func (f *failIter) Last() bool         { return f.mv(f.Iterator.Last) }
+func (f *failIter) Next() bool         { return f.mv(f.Iterator.Next) }
+func (f *failIter) Prev() bool         { return f.mv(f.Iterator.Prev) }
+func (f *failIter) Seek(k []byte) bool { return f.mv(func() bool { return f.Iterator.Seek(k) }) }
+func (f *failIter) Valid() bool        { return f.err == nil && f.Iterator.Valid() }
+func (f *failIter) Error() error       { return f.err }
+func (f *failIter) Key() []byte {
+	if f.err != nil {
+		return nil
+	}
+	return f.Iterator.Key()
+}
+func (f *failIter) Value() []byte {
+	if f.err != nil {
+		return nil
+	}
+	return f.Iterator.Value()
+}
+
+// failBlockIndex: an ArrayIndexer whose data iterators fail as the block's plan says (every Get makes a
+// fresh data iterator, so a block that cannot be read fails on every visit).
+type failBlockIndex struct {
+	*blockIndex
+	plans []failPlan
+}
+
+func (x *failBlockIndex) Get(i int) iterator.Iterator {
+	return &chk{&failIter{Iterator: iterator.NewArrayIterator(&kvArray{x.blocks[i], x.cmp}), plan: x.plans[i]}, "block(failing array)", x.g, x.ci}
+}
+
+func (g *generator) makeFailBlocks(r *rng.R, icmp comparer.Comparer, p []kv, ci *caseInfo) (*failBlockIndex, string, int) {
+	bi, _ := g.makeBlocks(r, icmp, p, ci)
+	fb := &failBlockIndex{blockIndex: bi}
+	nfail := 0
+	var sb strings.Builder
+	fmt.Fprintf(&sb, "%d", len(bi.blocks))
+	for i, b := range bi.blocks {
+		pl := drawPlan(r, len(b)+2)
+		if pl.k >= 0 {
+			nfail++
+		}
+		fb.plans = append(fb.plans, pl)
+		sb.WriteString(" " + hx(bi.seps[i]) + " " + pl.String() + " " + entriesStr(b))
+	}
+	return fb, sb.String(), nfail
+}
+
+func errClass(err error) string {
+	switch {
+	case err == nil:
+		return "ok"
+	case lerrors.IsCorrupted(err):
+		return "corrupted"
+	case err == iterator.ErrIterReleased:
+		return "released"
+	}
+	return "io"
+}
+
+// walkErr drives an iterator over failing children.  Oracles (the statements of GoLevel/Props/C02Err.lean):
+// strict — every answer given while Error() is nil is the specification cursor's answer (over all pairs of
+// all children), a call after which Error() is non-nil returned false, and from then on every call returns
+// false with that same error; non-strict — a corruption error never becomes Error(), every pair shown is a
+// pair of some child, and consecutive Next (Prev) answers increase (decrease).  all is the union of the
+// children's pairs, sorted.
+func (g *generator) walkErr(r *rng.R, kind string, ci *caseInfo, it iterator.Iterator, strict bool, all []kv, cmp func(a, b []byte) int, seekKey func() []byte, nerrf *int) ([]move, []string) {
+	var mvs []move
+	var outs []string
+	cur := &cursor{xs: all, pos: -1, cmp: cmp}
+	genuine := map[string]string{}
+	for _, e := range all {
+		genuine[string(e.k)] = string(e.v)
+	}
+	prev, valid := "", false
+	var prevKey []byte
+	var firstErr error
+	nvalid, reversals := 0, 0
+	reported := false
+	var trace strings.Builder
+	defer func() {
+		if p := recover(); p != nil {
+			g.violate(ci, "panic", fmt.Sprintf("panic during the walk: %v", p), mvs)
+			panic(statePanic{p})
+		}
+	}()
+	for n := 0; n < g.sz.Moves; n++ {
+		mv := genMove(r, prev, valid, seekKey)
+		mvs = append(mvs, mv)
+		ret := apply(it, mv)
+		k, v, err := it.Key(), it.Value(), it.Error()
+		if ret != it.Valid() || ret != (k != nil) {
+			g.violate(ci, "return-vs-Valid", fmt.Sprintf("move %d %s: returned %v, Valid()=%v, Key()!=nil %v", n, mv.m, ret, it.Valid(), k != nil), mvs)
+		}
+		switch {
+		case reported:
+		case firstErr != nil:
+			if ret || err != firstErr {
+				reported = true
+				g.violate(ci, "error-not-sticky", fmt.Sprintf("move %d %s: after Error()=%v the call returned %v with Error()=%v", n, mv.m, firstErr, ret, err), mvs)
+			}
+		case err != nil:
+			firstErr = err
+			if ret {
+				reported = true
+				g.violate(ci, "valid-with-error", fmt.Sprintf("move %d %s: returned true with Error()=%v", n, mv.m, err), mvs)
+			}
+			if !strict && lerrors.IsCorrupted(err) {
+				reported = true
+				g.violate(ci, "nonstrict-reports-corruption", fmt.Sprintf("move %d %s: non-strict iterator has Error()=%v", n, mv.m, err), mvs)
+			}
+		case strict:
+			applyCur(cur, mv)
+			sv, sk, sval := cur.get()
+			if sv != ret || (ret && (!bytes.Equal(sk, k) || !bytes.Equal(sval, v))) {
+				reported = true
+				g.violate(ci, "cursor-mismatch-without-error", fmt.Sprintf("move %d %s %s: strict implementation (%v %s %s) with Error()=nil, specification cursor (%v %s %s)", n, mv.m, hxn(mv.k), ret, hxn(k), hxn(v), sv, hxn(sk), hxn(sval)), mvs)
+			}
+		default:
+			if ret {
+				if want, ok := genuine[string(k)]; !ok || want != string(v) {
+					reported = true
+					g.violate(ci, "nonstrict-pair-not-genuine", fmt.Sprintf("move %d %s: shows %s %s, not a pair of any child", n, mv.m, hx(k), hx(v)), mvs)
+				}
+				if valid && prevKey != nil && ((mv.m == "next" && cmp(k, prevKey) <= 0) || (mv.m == "prev" && cmp(k, prevKey) >= 0)) {
+					reported = true
+					g.violate(ci, "nonstrict-order", fmt.Sprintf("move %d %s: %s shown after %s", n, mv.m, hx(k), hx(prevKey)), mvs)
+				}
+			}
+		}
+		if firstErr != nil && err == nil {
+			firstErr = nil // cannot happen on a sticky iterator; reported above as error-not-sticky
+		}
+		res := "invalid"
+		if ret {
+			outs = append(outs, fmt.Sprintf("true %s %s %s %d", hx(k), hx(v), errClass(err), *nerrf))
+			prevKey = append([]byte(nil), k...)
+			nvalid++
+			res = "valid"
+		} else {
+			outs = append(outs, fmt.Sprintf("false nil nil %s %d", errClass(err), *nerrf))
+			prevKey = nil
+		}
+		g.s.Count("error walks: moves", mv.m+" → "+res+", Error() "+errClass(err))
+		if valid && prev != "" && direction(prev) != direction(mv.m) && (mv.m == "next" || mv.m == "prev") {
+			reversals++
+		}
+		fmt.Fprintf(&trace, "%s%s;", mv.m, hxn(mv.k))
+		prev, valid = mv.m, ret
+	}
+	mode := "non-strict"
+	if strict {
+		mode = "strict"
+	}
+	switch {
+	case firstErr != nil:
+		g.s.Count("error walks: outcome", mode+": Error() "+errClass(firstErr)+" reported")
+	case *nerrf > 0:
+		g.s.Count("error walks: outcome", mode+": failing child skipped, Error() nil")
+	default:
+		g.s.Count("error walks: outcome", mode+": no failure surfaced at this iterator")
+	}
+	g.s.Count("iterator kind", kind)
+	key := fmt.Sprintf("%s/%08x/%08x", kind, crc32.ChecksumIEEE([]byte(fmt.Sprint(ci.replay["state"]))), crc32.ChecksumIEEE([]byte(trace.String())))
+	g.s.Eval(key, len(all) >= 2 && nvalid > 0 && (firstErr != nil || *nerrf > 0))
+	_ = reversals
+	return mvs, outs
+}
+
+// stateMergedErr: merged iterator, strict or not, over array children and nested indexed iterators that fail.
+func (g *generator) stateMergedErr(r *rng.R, id string, ci *caseInfo) {
+	ucmp := gen.Comparer(id)
+	icmp := leveldb.VerifIComparer(ucmp)
+	all := distinctIKeys(r, icmp, 1+r.Intn(g.sz.MaxEntries))
+	nchild := 1 + r.Intn(4)
+	parts := make([][]kv, nchild)
+	for _, e := range all {
+		x := r.Intn(nchild)
+		parts[x] = append(parts[x], e)
+	}
+	strict := r.Chance(1, 2)
+	var its []iterator.Iterator
+	var desc []string
+	nfail := 0
+	for x, p := range parts {
+		tag := fmt.Sprintf("%d", x)
+		if r.Chance(2, 3) {
+			pl := drawPlan(r, g.sz.Moves)
+			if pl.k >= 0 {
+				nfail++
+			}
+			its = append(its, &chk{&failIter{Iterator: iterator.NewArrayIterator(&kvArray{p, icmp}), plan: pl}, tag + ":failing array", g, ci})
+			desc = append(desc, "a "+pl.String()+" "+entriesStr(p))
+			g.s.Count("error walks: child kind", "array")
+		} else {
+			fb, d, nf := g.makeFailBlocks(r, icmp, p, ci)
+			nfail += nf
+			its = append(its, &chk{iterator.NewIndexedIterator(iterator.NewArrayIndexer(fb), strict), tag + ":indexed over failing blocks", g, ci})
+			desc = append(desc, "x "+d)
+			g.s.Count("error walks: child kind", "indexed over failing blocks")
+		}
+	}
+	sb := 0
+	if strict {
+		sb = 1
+	}
+	line := fmt.Sprintf("it new emerged %s %d %d %s", id, sb, nchild, strings.Join(desc, " "))
+	ci.site = "mergedIterator(failing children)"
+	ci.replay["state"] = line
+	mi := iterator.NewMergedIterator(its, icmp, strict)
+	nerrf := 0
+	mi.(iterator.ErrorCallbackSetter).SetErrorCallback(func(error) { nerrf++ })
+	univ := gen.Universe(r, 5, 3)
+	kind := "merged over failing children, non-strict"
+	if strict {
+		kind = "merged over failing children, strict"
+	}
+	mvs, outs := g.walkErr(r, kind, ci, mi, strict, all, icmp.Compare, randIKeySeek(r, all, func() []byte { return gen.KeyFrom(r, univ) }), &nerrf)
+	mi.Release()
+	g.emitWalk(line, mvs, outs)
+	g.sample("emerged", line, mvs, outs)
+	g.s.Count("error walks: children with a failure plan", fmt.Sprint(nfail))
+	g.nState["mergederr"]++
+}
+
+// stateIndexedErr: indexed iterator, strict or not, over blocks that fail.
+func (g *generator) stateIndexedErr(r *rng.R, id string, ci *caseInfo) {
+	ucmp := gen.Comparer(id)
+	icmp := leveldb.VerifIComparer(ucmp)
+	all := distinctIKeys(r, icmp, 1+r.Intn(g.sz.MaxEntries))
+	fb, d, nfail := g.makeFailBlocks(r, icmp, all, ci)
+	strict := r.Chance(1, 2)
+	sb := 0
+	if strict {
+		sb = 1
+	}
+	line := fmt.Sprintf("it new eindexed %s %d %s", id, sb, d)
+	ci.site = "indexedIterator(failing blocks)"
+	ci.replay["state"] = line
+	it := iterator.NewIndexedIterator(iterator.NewArrayIndexer(fb), strict)
+	nerrf := 0
+	it.(iterator.ErrorCallbackSetter).SetErrorCallback(func(error) { nerrf++ })
+	univ := gen.Universe(r, 5, 3)
+	kind := "indexed over failing blocks, non-strict"
+	if strict {
+		kind = "indexed over failing blocks, strict"
+	}
+	mvs, outs := g.walkErr(r, kind, ci, it, strict, all, icmp.Compare, randIKeySeek(r, all, func() []byte { return gen.KeyFrom(r, univ) }), &nerrf)
+	it.Release()
+	g.emitWalk(line, mvs, outs)
+	g.sample("eindexed", line, mvs, outs)
+	g.s.Count("error walks: children with a failure plan", fmt.Sprint(nfail))
+	g.nState["indexederr"]++
+}
+
 // ---- DB states ---------------------------------------------------------------------------------------
 
 type snapRec struct {
@@ -1172,7 +1492,7 @@ func visibleOf(ucmp comparer.Comparer, flat []kv, seq uint64, start, limit []byt
 // Comparers are the comparer ids the `it` protocol of the Lean driver knows.
 var Comparers = []string{"bytewise", "reverse", "lenfirst"}
 
-// RunState builds and walks one state: kind is merged | mergedx | mergeddup | indexed | db, seed the state's own stream
+// RunState builds and walks one state: kind is merged | mergedx | mergeddup | mergederr | indexed | indexederr | db, seed the state's own stream
 // (recorded in every replay as state_seed), want the number of DB iterator states (db only).
 func (g *generator) runState(kind, id string, seed uint64, want int) {
 	ci := &caseInfo{site: kind, replay: map[string]interface{}{"kind": kind, "comparer": id, "state_seed": seed, "db_states": want, "moves": g.sz.Moves,
@@ -1195,6 +1515,10 @@ func (g *generator) runState(kind, id string, seed uint64, want int) {
 		g.stateMergedDup(r, id, ci)
 	case "indexed":
 		g.stateIndexed(r, id, ci)
+	case "mergederr":
+		g.stateMergedErr(r, id, ci)
+	case "indexederr":
+		g.stateIndexedErr(r, id, ci)
 	case "db":
 		g.stateDB(r, id, want, ci)
 	}
@@ -1225,12 +1549,16 @@ func Run(r *rng.R, sz Sizes, s *wp.Sink) {
 			// a duplicate-key state rides on the same draw (own stream derived from it), so that the
 			// seeded stream of all other states is what it was before these states existed
 			g.runState("mergeddup", id, sd^0x9e3779b97f4a7c15, 0)
+			// … and a walk over failing children (merged, strict or not), likewise
+			g.runState("mergederr", id, sd^0xc2b2ae3d27d4eb4f, 0)
 			total++
 		case 2, 3:
 			g.runState("mergedx", id, r.U64(), 0)
 			total++
 		case 4, 5:
-			g.runState("indexed", id, r.U64(), 0)
+			sd := r.U64()
+			g.runState("indexed", id, sd, 0)
+			g.runState("indexederr", id, sd^0xc2b2ae3d27d4eb4f, 0) // rides on the same draw, as above
 			total++
 		default:
 			n := 3 + r.Intn(6)
